@@ -30,6 +30,13 @@ NAMINGS = {
     # distinct names that share a prefix across kinds (worker M10 next to cumulative worker M1, task M1x next to both)
     'shared_prefix': lambda k, i: {'W': 'M%d0', 'C': 'M%d', 'T': 'M%dx'}.get(k, k + '%d') % i,
 }
+# free-text names: distinct names of one kind differ only by a character that is not a letter, a digit or an underscore
+# (compared on verdict / optimum / schedules: z3 prints such symbols quoted, the texts are not comparable)
+SEPS = '-. #:+/~@'
+FREE_TEXT = {
+    'punctuation': lambda k, i: {'T': 'job', 'W': 'res', 'C': 'cum', 'S': 'sel', 'K': 'con', 'B': 'buf', 'I': 'ind', 'O': 'obj'}[k]
+    + SEPS[i % len(SEPS)] + str(i // len(SEPS)),
+}
 # adversarial: names that are prefixes of each other / contain the infixes the library builds variable names with
 ADVERSARIAL = {
     'prefixes': lambda k, i: {'T': 'A', 'W': 'A', 'C': 'A', 'S': 'A', 'K': 'A', 'B': 'A', 'I': 'A', 'O': 'A'}[k] * 1 + '1' * i if k in 'TW' else '%s%d' % (k, i),
@@ -300,6 +307,9 @@ def observe_case(args):
                 a = [x for x in base['assertions'] if x not in v['assertions']][:1]
                 b = [x for x in v['assertions'] if x not in base['assertions']][:1]
                 out['diffs'].append(('renaming:assertions', a, b, nm))
+        for nm in FREE_TEXT:
+            v = observe_variant(prog, FREE_TEXT[nm])
+            out['diffs'] += [(w, a, b, nm) for (w, a, b, _) in semantic(v, 'renaming')]
         for nm in ADVERSARIAL:
             v = observe_variant(prog, ADVERSARIAL[nm])
             out['diffs'] += [(('adversarial_' + w), a, b, nm) for (w, a, b, _) in semantic(v, 'names')]
@@ -383,7 +393,7 @@ def run(ctx, replay=None):
         if res.get('status') != 'ok':
             continue
         stats['cases'] += 1
-        stats['variants'] += 6 + len(res.get('orders', []))
+        stats['variants'] += 7 + len(res.get('orders', []))
         stats['verdict_' + res['base'].get('verdict', '?')] += 1
         stats['with_complete_enumeration'] += 1 if res['base'].get('complete') else 0
         for k in res.get('orders', []):
@@ -414,7 +424,7 @@ def run(ctx, replay=None):
             'Print Assumptions: ' + '; '.join('%s: %s' % (t, po['assumptions'].get(t, 'NOT PRINTED')) for t in po['theorems'])],
         'coqchk': ({'axioms': chk_res['axioms'], 'ok': chk_res['ok']} if chk_res else 'thorough tier only'), 'theorems': po['theorems'], 'hygiene_hits': bad,
         'evaluations': stats['variants'], 'distinct_nontrivial': len({terms.to_coq(progs[res['idx']]) for res in live}),
-        'rule': 'one evaluation = one variant (3 well-behaved namings, 2 adversarial namings, up to 2 declaration orders, 1 rerun after unrelated problems) '
+        'rule': 'one evaluation = one variant (3 well-behaved namings, 1 free-text naming with punctuation, 2 adversarial namings, up to 2 declaration orders, 1 rerun after unrelated problems) '
                 'of a small problem from seed %d, built, initialised, solved and enumerated by the real library; distinct_nontrivial counts distinct base problems '
                 'that were accepted and solved' % ctx.seed,
         'samples': samples,
